@@ -27,6 +27,9 @@ CHECKS["C18"] = ("fault_enumeration", "exhaustive cancellation-point enumeration
 CHECKS["C20"] = ("exploration", "weak-reference retention PBT over long lazily generated streams",
   "For every streaming tool and single-pass aggregation, groupby and tee (with generated child lag / early close patterns) the number of live source items, counted through weak references at every 10th consumer step, stays below window + 3*sources + 3 for stream lengths 50-400 (thorough: to 2000): the bound is independent of the length.",
   "CPython reference counting + gc.collect(); documented accumulators excluded", "4/C20")
+CHECKS["C07"] = ("exploration", "model-based history PBT: generated borrow/close/tool/drop histories vs a shared synchronous iterator",
+  "Generated operation histories (next, asend, close, close via iter, hand to any of 26 tools, drop+gc, borrow/re-borrow) over four kinds of underlying iterator; after every operation the underlying is not closed and every item obtained anywhere is exactly next(model); closed lineages yield nothing; the owner finally drains exactly the rest.",
+  "handle state after a tool used it is 'unknown' (either stop or next(model) accepted); athrow through a handle not generated", "4/C07")
 REASONS = {}
 props = [json.loads(l)["id"] for l in open(os.path.join(HERE, "properties.jsonl"))]
 checks = []
